@@ -274,7 +274,7 @@ def _mk_split_crop(lens, tiers, timeout):
     return h
 
 
-for _l in [(0, 0), (1, 0), (0, 1), (1, 1), (2, 0)]:
+for _l in [(0, 0), (1, 0), (0, 1), (1, 1), (2, 0), (0, 2)]:
     _mk_split_crop(_l, ("quick", "thorough"), 300)
 for _l in [(2, 1), (1, 2), (2, 2), (3, 1)]:
     _mk_split_crop(_l, ("thorough",), 2400)
